@@ -323,8 +323,12 @@ func (g *gen) allotPortions() []J {
 	if g.cfg.unspecified && r.Intn(12) == 0 {
 		// portions above one next to `remaining` (remaining first or last): cannot add up to one
 		over := []J{ePortion(3, 2), ePortion(1, 2)}
-		if r.Intn(2) == 0 {
+		switch r.Intn(3) {
+		case 0:
 			return append([]J{eRemaining()}, over...)
+		case 1:
+			// every portion at most one, `remaining` in the middle, the ones after it push the sum above one
+			return []J{ePortion(1, 2), eRemaining(), ePortion(2, 3)}
 		}
 		return append(over, eRemaining())
 	}
